@@ -63,6 +63,7 @@ type Contract struct {
 	FParams    map[string]string // function-typed parameter -> schema its argument must satisfy
 	Replay     *Expr // string-valued expression (pre-state): the input buffer for counterexample replay
 	Ghosts     []string
+	BuildsNodes bool
 	merged     bool
 	panicSet   bool
 	NoSafety   bool
@@ -89,6 +90,7 @@ type Schema struct {
 }
 
 type ContractSet struct {
+	TypeInvs map[string]*Expr // heap type name -> invariant over `self` replacing the inferred required fields
 	Funcs   map[string]*Contract
 	Schemas []*Schema
 	Specs   map[string]*SpecDef
@@ -203,6 +205,21 @@ func (cs *ContractSet) line(cur **Contract, text, file string, ln int) error {
 		}
 		cs.Specs[m[1]] = &SpecDef{Name: m[1], Params: ps, Body: e, Opaque: word == "opaque"}
 		return nil
+	case word == "typeinv":
+		// typeinv ast.T EXPR   (EXPR over self)
+		f := strings.SplitN(rest, " ", 2)
+		if len(f) != 2 {
+			return fmt.Errorf("malformed typeinv")
+		}
+		e, err := ParseExpr(f[1])
+		if err != nil {
+			return err
+		}
+		if cs.TypeInvs == nil {
+			cs.TypeInvs = map[string]*Expr{}
+		}
+		cs.TypeInvs[f[0]] = e
+		return nil
 	case word == "schema":
 		// schema NAME REGEXP [except REGEXP]
 		f := strings.Fields(rest)
@@ -246,6 +263,8 @@ func (cs *ContractSet) line(cur **Contract, text, file string, ln int) error {
 		c.Props = strings.Fields(rest)
 	case "trusted":
 		c.Trusted = true
+	case "buildsnodes":
+		c.BuildsNodes = true
 	case "inherit":
 		c.Inherit = rest
 	case "fparam":
